@@ -231,7 +231,8 @@ def affine_cases(draw):
         s = draw(st.builds(lambda x, y: F(x, y), st.integers(1, 12), st.integers(1, 7)))
     return {"U": U, "p": p, "num": num, "a": a, "s": s, "P": draw(gen.ctrlpoints(n, draw(st.sampled_from([0, 2])))),
             "w": draw(st.one_of(st.none(), gen.pos_weights(n))),
-            "order": draw(st.sampled_from(["shift-scale", "scale-shift", "ops"]))}
+            "order": draw(st.sampled_from(["shift-scale", "scale-shift", "ops"])),
+            "route": draw(st.sampled_from(["methods", "methods", "assign", "augmented"]))}
 
 
 def check_affine(case, out):
@@ -332,7 +333,18 @@ def check_affine(case, out):
                 obj(lib.conv_knot(us[0], num))  # used through its plain call form before the change
                 obj([lib.conv_knot(us[0], num), lib.conv_knot(us[-1], num)])
                 live = obj.knotvector
-                if case["order"] == "shift-scale":
+                route = case.get("route", "methods")
+                if route == "assign":
+                    obj.knotvector = lib.KnotVector(list(k2))  # the mapped vector through the property setter
+                elif route == "augmented":
+                    # augmented assignment on the property: in-place operator, then the setter
+                    if case["order"] == "shift-scale":
+                        obj.knotvector += a
+                        obj.knotvector *= s
+                    else:
+                        obj.knotvector *= s
+                        obj.knotvector += a
+                elif case["order"] == "shift-scale":
                     live.shift(a).scale(s)
                 else:
                     live.scale(s).shift(a)
@@ -343,7 +355,7 @@ def check_affine(case, out):
             if [oracle.frac(x) for x in obj.knotvector] != L2:
                 out.cls(name + ".knotvector-not-live")
                 continue
-            out.cls(name + "-reparametrised-in-place")
+            out.cls(name + "-reparametrised-in-place", "route=" + case.get("route", "methods"))
             for u in us:
                 lu = lib.conv_knot(u, num)
                 lv = f_lib(lu, a, s, case["order"])
